@@ -1,19 +1,19 @@
 ------------------------------- MODULE Trace_Beanquery -------------------------------
-(* Code -> spec at the API grain: whole histories of execute / fetch calls with REAL statements on one connection are
-   replayed through Beanquery's actions.  Line 1 of the file is the table: [op |-> "table", sch, rows]; then
-   "begin" (fresh connection), "execute" (c, q, err, desc, rownumber, rowcount), "fetchone" / "fetchmany" (arg) /
-   "fetchall" (c, ret as encoded rows, rownumber, rowcount).  An event the spec cannot explain is reported and the
-   rest of its history skipped. *)
+(* Code -> spec at the API grain: whole histories of register / execute / fetch calls with REAL statements and REAL
+   tables on one connection are replayed through Beanquery's actions.  Line 1 of the file is a header; then
+   "begin" (fresh connection, nothing registered), "register" (name, sch, cols, rows: conn.tables[name] = table),
+   "execute" (c, q, name, err, desc, rownumber, rowcount), "fetchone" / "fetchmany" (arg) / "fetchall" (c, ret as
+   encoded rows, rownumber, rowcount).  An event the spec cannot explain is reported and the rest of its history
+   skipped. *)
 EXTENDS Beanquery, Json, IOUtils
 
 Log == ndJsonDeserialize(IOEnv.TRACE_FILE)
-TraceSch == Log[1].sch
-TraceTable == Log[1].rows
+TraceNames == {"g", "h", "j"}
 VARIABLES l, dead
 tvars == <<vars, l, dead>>
 
 Step(e) ==
-    \/ e.op = "execute" /\ Execute(e.c, e.q)
+    \/ e.op = "execute" /\ Execute(e.c, e.q, e.name)
     \/ e.op = "fetchone" /\ FetchOne(e.c)
     \/ e.op = "fetchmany" /\ FetchMany(e.c, e.arg)
     \/ e.op = "fetchall" /\ FetchAll(e.c)
@@ -25,19 +25,22 @@ Matches(e) ==
     /\ e.op # "execute" => EncRows(out'.val) = e.ret
 Good(e) == Step(e) /\ Matches(e)
 \* statements whose evaluation leaves the exact-rational domain are not judged: the history is abandoned there
-OutOfDomain(e) == e.op = "execute" /\ LET cq == Compile(e.q, Sch) IN cq.ok /\ ExecOOD(e.q, cq, Table, Sch)
+OutOfDomain(e) == e.op = "execute" /\ Outcome(e.q, e.name).ood
 
 TInit == Init /\ l = 2 /\ dead = FALSE
 Reset ==
+    /\ tables' = [n \in TableNames |-> <<>>]
     /\ executed' = [c \in Cursors |-> FALSE] /\ result' = [c \in Cursors |-> <<>>] /\ buf' = [c \in Cursors |-> <<>>]
     /\ pos' = [c \in Cursors |-> 0] /\ desc' = [c \in Cursors |-> <<>>] /\ fetched' = [c \in Cursors |-> <<>>]
     /\ out' = [op |-> "init", c |-> 0, val |-> <<>>, err |-> ""]
+    /\ UNCHANGED cache
 TNext ==
     /\ l <= Len(Log)
     /\ l' = l + 1
     /\ LET e == Log[l] IN
        IF e.op = "begin" THEN Reset /\ dead' = FALSE
        ELSE IF dead THEN UNCHANGED <<vars, dead>>
+       ELSE IF e.op = "register" THEN Register(e.name, [sch |-> e.sch, cols |-> e.cols, rows |-> e.rows]) /\ UNCHANGED dead
        ELSE IF OutOfDomain(e) THEN dead' = TRUE /\ UNCHANGED vars
        ELSE IF ENABLED Good(e) THEN Good(e) /\ UNCHANGED dead
        ELSE /\ PrintT(ToJson([verdict |-> "rejected", line |-> l, op |-> e.op, tid |-> e.tid]))
